@@ -265,6 +265,9 @@ def daemon_part(prop, shards):
 for _p in ("C13", "C15"):
     CHECKS[_p]["parts"].append(dict(name="addresser", pkg="internal/system", test="TestVerifAddresser", shards={"quick": 1, "thorough": 1}, env={"VERIF_PROP": _p}))
 
+for _p in ("C13", "C14", "C15"):
+    CHECKS[_p]["parts"].append(dict(name="concurrent", pkg="internal/plugin", test="TestVerifWildConcurrent", race=True, shards={"quick": 4, "thorough": 8}, env={"VERIF_PROP": _p}))
+
 for _p in ("C13", "C14"):
     CHECKS[_p]["parts"].append(dict(name="prepare", pkg="internal/plugin", test="TestVerifPrepareNetns", shards={"quick": 1, "thorough": 1}, wrap=NETNS, min_evals=0,
                                     env={"VERIF_PROP": _p}, timeout_s={"quick": 240, "thorough": 600}))
